@@ -148,6 +148,8 @@ val seq : nat -> nat -> nat list
 module Z :
  sig
   val eqb : z -> z -> bool
+
+  val of_N : n -> z
  end
 
 type ascii =
@@ -967,3 +969,139 @@ val table_eqb :
   ('a1 -> 'a1 -> bool) -> (string * 'a1) list -> (string * 'a1) list -> bool
 
 val chk_C15 : program -> output -> bool
+
+val cmpop_eqb : cmpop -> cmpop -> bool
+
+val logicop_eqb : logicop -> logicop -> bool
+
+val eres_val_eqb : eres_val -> eres_val -> bool
+
+val eres_eqb : eres -> eres -> bool
+
+val instr_eqb : instr -> instr -> bool
+
+val subseqb : ('a1 -> 'a1 -> bool) -> 'a1 list -> 'a1 list -> bool
+
+val chk_tree_sub : block -> bool
+
+val chk_C18_sub : output -> bool
+
+type shape =
+| Sh of shape list
+
+val shape_of_block : block -> shape
+
+val shapes_stmt : stmt -> shape list
+
+val shapes_if : ifstmt -> shape list
+
+val shapes_body : ifbody -> shape list
+
+val shape_of_stmts : stmt list -> shape list
+
+val shape_eqb : shape -> shape -> bool
+
+val chk_C18_shape : program -> output -> bool
+
+val chk_C18 : program -> output -> bool
+
+type json =
+| JNull
+| JBool of bool
+| JNum of z
+| JFloat32 of z
+| JFloat64 of z
+| JStr of string
+| JChar of z
+| JArr of json list
+| JObj of (string * json) list
+
+val tag0 : string -> json
+
+val tagc : string -> json -> json
+
+val enc_opt : ('a1 -> json) -> 'a1 option -> json
+
+val enc_N : n -> json
+
+val enc_str : string -> json
+
+val enc_ident : ident -> json
+
+val enc_enum : ('a1 -> string) -> 'a1 -> json
+
+val enc_prim_ty : prim_ty -> json
+
+val enc_binop : binop -> json
+
+val enc_cmpop : cmpop -> json
+
+val enc_logicop : logicop -> json
+
+val enc_err_kind : err_kind -> json
+
+val enc_prim_val : prim_val -> json
+
+val enc_attr : ident -> json -> json
+
+val enc_ast_ty : ast_ty -> json
+
+val enc_struct_decl : ident -> (ident * ast_ty) list -> json
+
+val enc_sattr : string -> n -> json -> json
+
+val enc_sem_ty : sem_ty -> json
+
+val enc_sstruct_body : string -> ((string * n) * sem_ty) list -> json
+
+val enc_chain : string -> json -> (binop * json) list -> json
+
+val enc_cval : cval -> json
+
+val enc_cexpr : cexpr -> json
+
+val genc_expr : (ast_ty -> json) -> expr -> json
+
+val genc_lcond : (ast_ty -> json) -> lcond -> json
+
+val genc_cond : (ast_ty -> json) -> cond -> json
+
+val genc_stmt : (ast_ty -> json) -> stmt -> json
+
+val enc_param : (ident * ast_ty) -> json
+
+val genc_fn : (ast_ty -> json) -> fn_decl -> json
+
+val genc_top : (ast_ty -> json) -> top -> json
+
+val genc_program : (ast_ty -> json) -> program -> json
+
+val enc_program : program -> json
+
+val enc_value : value -> json
+
+val enc_eres_val : eres_val -> json
+
+val enc_eres : eres -> json
+
+val enc_cval_sem : cval_sem -> json
+
+val enc_const_sem : const_sem -> json
+
+val enc_func_sem : func_sem -> json
+
+val enc_instr : instr -> json
+
+val enc_stack : instr list -> json
+
+val enc_loc : loc -> json
+
+val enc_err : err -> json
+
+val enc_errors : err list -> json
+
+val enc_sparam : (string * sem_ty) -> json
+
+val enc_ginstr : ginstr -> json
+
+val enc_gstack : ginstr list -> json
